@@ -421,6 +421,61 @@ def rule_scan_loop_state(ck: Check, repo: Repo, rid: str = "R12") -> None:
     r.floor(3, "reads of scan-updated containers", got=n)
 
 
+# ---------------------------------------------------------------------------------------------------------------
+# R13: both sides of a path-prefix comparison are spelled the same way
+_NORMALISERS = ("normpath", "abspath", "realpath", "relpath", "resolve", "absolute", "expanduser")
+
+
+def _spelling_class(repo: Repo, fn: ast.FunctionDef, expr: ast.AST, depth: int = 0) -> tuple[str, str]:
+    """('NORM', how) when the value went through a lexical / file-system normalisation, else ('RAW', '')."""
+    from ..rules import resolve_deep
+    e = resolve_deep(fn, expr)
+    for c in ast.walk(e):
+        if isinstance(c, ast.Call):
+            last = ast.unparse(c.func).split(".")[-1]
+            if last in _NORMALISERS:
+                return "NORM", ast.unparse(c)[:50]
+    if depth < 2:
+        # an attribute that is a property of a package class: the class of what the property returns
+        for a in ast.walk(e):
+            if isinstance(a, ast.Attribute):
+                cands = [(q, f) for q, f in repo.functions.items() if q.split(".")[-1] == a.attr
+                         and any(ast.unparse(d) in ("property", "functools.cached_property", "cached_property") for d in f.decorator_list)]
+                for q, f in cands:
+                    for rt in [n for n in ast.walk(f) if isinstance(n, ast.Return) and n.value is not None]:
+                        cls, how = _spelling_class(repo, f, rt.value, depth + 1)
+                        if cls == "NORM":
+                            return "NORM", f"{q.split('.')[-2]}.{a.attr}: {how}"
+    return "RAW", ""
+
+
+def rule_spelling_classes(ck: Check, repo: Repo, rid: str = "R13") -> None:
+    """`a.relative_to(b)` / `a.is_relative_to(b)` compare path COMPONENTS as spelled.  The nested REUSE.toml lookup
+    builds both sides from the root as the user spelled it (`src/..`, `/abs/proj/../proj`); they agree only while both are
+    left as spelled or both are normalised.  One side through normpath / resolve and the other not: for a root with a
+    collapsible `..` no REUSE.toml is relevant any more (or the wrong one is)."""
+    r = ck.rule(rid, "both operands of a path-prefix comparison in the REUSE.toml lookup are spelled the same way (both as given or both normalised)")
+    GLq = "reuse.global_licensing.NestedReuseTOML"
+    n = 0
+    for name in ("_find_relevant_tomls", "_find_relevant_tomls_and_items", "reuse_info_of"):
+        q = f"{GLq}.{name}"
+        fn = repo.func(q)
+        ck.analysed_fn(q)
+        for c in ast.walk(fn):
+            if isinstance(c, ast.Call) and isinstance(c.func, ast.Attribute) and c.func.attr in ("relative_to", "is_relative_to") and c.args:
+                n += 1
+                left = _spelling_class(repo, fn, c.func.value)
+                right = _spelling_class(repo, fn, c.args[0])
+                r.instance(f"{name}:{ast.unparse(c)[:60]}", {"function": q, "comparison": ast.unparse(c)[:80], "receiver": left[0], "argument": right[0]}, q)
+                if left[0] != right[0]:
+                    norm_side, how = ("receiver", left[1]) if left[0] == "NORM" else ("argument", right[1])
+                    r.violation(q, f"`{ast.unparse(c)[:60]}`: the {norm_side} is normalised ({how}), the other operand is spelled as given",
+                                "with `--root src/..` (or `/abs/proj/../proj`) the two no longer share a prefix: annotations of REUSE.toml stop"
+                                " matching or a nested REUSE.toml is dropped - `docs/index.md` is reported with the outer licence - while `--root .`"
+                                " gives the right answer", repo.loc(c))
+    r.floor(2, "path-prefix comparisons in the nested lookup", got=n)
+
+
 def rule_toml_order(ck: Check, repo: Repo) -> None:
     from . import c04
     c04.rule_nesting_sort_only(ck, repo, "R3")
@@ -448,6 +503,7 @@ def run(ck: Check, repo: Repo) -> None:
     rule_pool(ck, repo)
     rule_toml_order(ck, repo)
     rule_scan_loop_state(ck, repo)
+    rule_spelling_classes(ck, repo)
     r4 = ck.rule("R4", "identifiers derived by hashing take only root-relative inputs (clause of root-spelling independence)")
     from . import c18
     c18.spdx_id_inputs(ck, repo, r4)
